@@ -12,6 +12,7 @@ import LcdbModel.Model.Lsm
 import LcdbModel.Model.DbIter
 import Driver.IoAbs
 import LcdbModel.Model.Files
+import LcdbModel.Model.Compaction
 open Lcdb Drv
 
 structure BatchRec where
@@ -89,6 +90,10 @@ structure TS where
   pendingNested : List (Nat × Nat × String × Run) := []
   nCrashNontrivial : Nat := 0
   nJ : Nat := 0
+  csnap : Option Nat := none                  -- smallest snapshot of the compaction whose edit comes next (`csnap` line)
+  nDropLoop : Nat := 0                        -- compactions whose output was recomputed with Compaction.expectedOutput
+  nDropped : Nat := 0                         -- entries those compactions dropped
+  nDropBase : Nat := 0                        -- of them deletion markers (rule B)
   io : IoAbs.AbsState := {}
 
 def TS.problem (t : TS) (kind : String) (msg : String) : TS :=
@@ -210,6 +215,28 @@ def handleEdit (t : TS) (spec : String) (rc : String) : TS :=
             t.problem "MISMATCH[other]" "compaction edit touches levels other than L and L+1"
           else
             let trivial := metas.length == 1 && in0.length == 1 && in1.isEmpty && metas.all (fun f => in0.contains f.num)
+            -- mechanism, not only contract: the tables a compaction wrote must hold exactly what the drop loop of
+            -- Model/Compaction.lean yields from the model's copies of the input files (theorem
+            -- Compaction.expectedOutput_meets_contract ties that function to clause (c) of stepOk)
+            let t := match t.csnap with
+              | none => t
+              | some sm =>
+                let t := { t with csnap := none }
+                if trivial then t else
+                let f0 := pickNums (t.st.level level) in0
+                let f1 := pickNums (t.st.level (level + 1)) in1
+                let exp := Compaction.expectedOutput t.cmp t.st level f0 f1 sm
+                let got : Run := metas.flatMap (fun (f : FileMeta) => f.run)
+                let nin := (f0 ++ f1).foldl (fun n (f : FileMeta) => n + f.run.length) 0
+                let t := if sm ≤ smallestProtected t.st then t
+                         else t.problem "MISMATCH[csnap]" s!"compaction L{level} worked with smallest snapshot {sm}, above a protected sequence ({smallestProtected t.st}): entries a live snapshot needs may be dropped"
+                let t := { t with nDropLoop := t.nDropLoop + 1, nDropped := t.nDropped + (nin - got.length),
+                                  nDropBase := t.nDropBase + ((f0 ++ f1).foldl (fun n (f : FileMeta) => n + (f.run.filter (fun (e : Entry) => e.kind == 0)).length) 0 - (got.filter (fun (e : Entry) => e.kind == 0)).length) }
+                if exp == got then t
+                else
+                  let extra := got.filter (fun e => !exp.contains e)
+                  let missing := exp.filter (fun e => !got.contains e)
+                  t.problem "MISMATCH[droploop]" s!"compaction L{level} in0={in0} in1={in1} smallest={sm}: the output tables hold {got.length} entries, the drop loop of the model yields {exp.length}; kept but should be dropped: [{showRunBrief extra}]; dropped but should be kept: [{showRunBrief missing}]"
             let t := t.doStep (.compact level in0 in1 metas) s!"compaction L{level} in0={in0} in1={in1} outs={metas.map (·.num)}"
             if trivial then { t with nTrivial := t.nTrivial + 1 } else { t with nCompact := t.nCompact + 1 }
     | _, _ => t.problem "MISMATCH[other]" "unparsable edit"
@@ -577,7 +604,8 @@ def handleLine (t : TS) (line : String) : TS :=
     match num.toNat?, size.toNat?, parseEntries entries with
     | some n, some sz, some run => { t with files := (n, sz, run) :: t.files }
     | _, _, _ => t.problem "MISMATCH[other]" "unparsable file dump"
-  | ["edit", spec, rc] => handleEdit t spec rc
+  | ["csnap", n] => { t with csnap := n.toNat? }
+  | ["edit", spec, rc] => { (handleEdit t spec rc) with csnap := none }
   | ["ver", ls, nf, ln, immf, levels] => handleVer t ls nf ln immf levels
   | ["ver", ls, nf, ln, immf, levels, m] => { (handleVer t ls nf ln immf levels) with manifestNum := ((m.drop 2).toString.toNat?).getD 0 }
   | ["mem", entries] =>
@@ -730,4 +758,4 @@ def main : IO Unit := do
     IO.println p
   for k in t.known do
     IO.println s!"KNOWN {k}"
-  IO.println s!"done lines={t.lineNo} writes={t.nWrites} gets={t.nGets} iterops={t.nIter} flushes={t.nFlush} compactions={t.nCompact} trivialmoves={t.nTrivial} recoveries={t.nRecover} invchecks={t.nInv} vers={t.nVer} ls={t.nLs} lifecycle={t.nLifecycle} corruptions={t.nCorrupt} corruptreads={t.nCorruptReads} corrupterrors={t.nCorruptErrors} repairs={t.nRepairs} liveiterops={t.nLongIterOps} crashes={t.nCrash} crashes2={t.nCrash2} crashesnested={t.nCrashN} crashnonempty={t.nCrashNontrivial} jevents={t.nJ} ioevents={t.io.nEvents} edits={t.io.nEdits} conforms={if t.io.mon.ok then 1 else 0} conformsstrict={if t.io.mon.ok && t.io.mon.okDel then 1 else 0} werr={t.nWerr} failedopens={t.nFailedOpens} failedbatches={t.nFailedBatches} maxfiles={t.maxFiles} levelsused={t.levelsUsed} problems={t.problems.length + t.io.problems.length}"
+  IO.println s!"done lines={t.lineNo} writes={t.nWrites} gets={t.nGets} iterops={t.nIter} flushes={t.nFlush} compactions={t.nCompact} trivialmoves={t.nTrivial} droploops={t.nDropLoop} dropped={t.nDropped} droppedtombstones={t.nDropBase} recoveries={t.nRecover} invchecks={t.nInv} vers={t.nVer} ls={t.nLs} lifecycle={t.nLifecycle} corruptions={t.nCorrupt} corruptreads={t.nCorruptReads} corrupterrors={t.nCorruptErrors} repairs={t.nRepairs} liveiterops={t.nLongIterOps} crashes={t.nCrash} crashes2={t.nCrash2} crashesnested={t.nCrashN} crashnonempty={t.nCrashNontrivial} jevents={t.nJ} ioevents={t.io.nEvents} edits={t.io.nEdits} conforms={if t.io.mon.ok then 1 else 0} conformsstrict={if t.io.mon.ok && t.io.mon.okDel then 1 else 0} werr={t.nWerr} failedopens={t.nFailedOpens} failedbatches={t.nFailedBatches} maxfiles={t.maxFiles} levelsused={t.levelsUsed} problems={t.problems.length + t.io.problems.length}"
